@@ -387,7 +387,12 @@ class TypeInfer:
             return self.call_type(e, fn, env, mod)
         if isinstance(e, (ast.List, ast.ListComp)):
             if isinstance(e, ast.List):
-                ts = {self.expr_type(x, fn, env, mod) for x in e.elts}
+                ts = set()
+                for x in e.elts:
+                    if isinstance(x, ast.Starred):
+                        ts.add(self.elem_type(self.expr_type(x.value, fn, env, mod), x.value, fn, env))
+                    else:
+                        ts.add(self.expr_type(x, fn, env, mod))
                 return ('list', ts.pop() if len(ts) == 1 else None)
             env2 = dict(env)
             for g in e.generators:
@@ -536,7 +541,7 @@ class TypeInfer:
                 if at and at[0] == 'inst':
                     return ('cls', at[1])
                 return ('type',)
-            if b == 'list':
+            if b in ('list', 'tuple'):
                 if e.args:
                     at = self.expr_type(e.args[0], fn, env, mod)
                     return ('list', self.elem_type(at, e.args[0], fn, env))
